@@ -17,12 +17,12 @@
    RoundTripCanon.knownb; the property as stated is C01_reload_identity.
    MISSING, named: (1) trees whose root carries a non-canonical xsi:schemaLocation text (serialize rewrites it: the
    re-loaded tree equals the REWRITTEN one; set_version is not shown to preserve RootCanon); lenient loads WITH warnings
-   (nothing is claimed about their trees) — hence load(serialize(load d)) = load d is proved only through Canon; (2) RootCanon states the
-   header attributes semantically (parse_file_header returns ver silently on them). *)
+   (nothing is claimed about their trees); (2) RootCanon states the header attributes semantically (parse_file_header
+   returns ver silently on them; rootcanonb evaluates that). *)
 From AV Require Import Base.Bytes Base.Outcome Base.Utf8 Hash.HashModel Spec.SpecOps Spec.Versions
   Xml.Lexer Xml.Parser Xml.Serializer Xml.LexerProofs Xml.Escape Xml.RoundTripValues Xml.RoundTripAttrs
   Xml.RoundTripLexer Xml.StrictValidDef Xml.ParserDepth Xml.RoundTripElem Xml.RoundTripFile Xml.TablesOk
-  Xml.RoundTripCanonValues Xml.RoundTripCanon Xml.Utf8Closure Xml.RoundTripCanonFinal Xml.ParserExamples Xml.RoundTripExamples.
+  Xml.RoundTripCanonValues Xml.RoundTripCanon Xml.Utf8Closure Xml.RoundTripCanonFinal Xml.RoundTripCanonb Xml.ParserExamples Xml.RoundTripExamples.
 From AV Require Import Spec.SpecReal Hash.HashRealElement Hash.HashRealAttr Hash.HashRealEnum.
 Open Scope list_scope.
 Open Scope N_scope.
@@ -280,3 +280,27 @@ Theorem C01_known_classes_examples :
   known_of doc_ok = Some false /\ known_of doc_rich = Some false /\
   known_of doc_mixed_split = Some true /\ known_of doc_edge_blank = Some true /\ known_of doc_amp_pattern = Some true.
 Proof. exact (conj known_plain (conj known_rich (conj known_mixed_split (conj known_edge_blank known_amp_pattern)))). Qed.
+
+(* [U] Canon is decidable: the boolean checker canonb reflects it (evaluable by vm_compute or by the extracted model) *)
+Theorem C01_canonb_spec :
+  forall (T : tables) (tab_el tab_at tab_en : nametab) (check_fn : N -> list N -> res bool)
+         (float_fmt : N -> list N) (float_parse : list N -> option N) (ver : N) (t : etree),
+       canonb T tab_el tab_at tab_en check_fn float_fmt float_parse ver t = true <->
+       Canon T tab_el tab_at tab_en check_fn float_fmt float_parse ver t.
+Proof. exact canonb_spec. Qed.
+
+(* [U] a sound boolean checker for canonical roots (the header clause is evaluated on one state; pfh_indep extends it to all states and both modes) *)
+Theorem C01_rootcanonb_sound :
+  forall (T : tables) (tab_el tab_at tab_en : nametab) (check_fn : N -> list N -> res bool)
+         (float_fmt : N -> list N) (float_parse : list N -> option N) (ver : N) (t : etree),
+       rootcanonb T tab_el tab_at tab_en check_fn float_fmt float_parse ver t = true ->
+       forall s : bool, RootCanon s T tab_el tab_at tab_en check_fn float_fmt float_parse ver t.
+Proof. exact rootcanonb_sound. Qed.
+
+(* [F] on the real tables: the strictly loaded trees of the plain and of the rich example document are canonical roots
+   (rootcanonb = true: hypotheses of C01_roundtrip_partial hold for realistic trees), those of the three recorded classes
+   are not *)
+Theorem C01_rootcanonb_examples :
+  rootcanon_of doc_ok = Some true /\ rootcanon_of doc_rich = Some true /\
+  rootcanon_of doc_mixed_split = Some false /\ rootcanon_of doc_edge_blank = Some false /\ rootcanon_of doc_amp_pattern = Some false.
+Proof. exact (conj rootcanon_plain (conj rootcanon_rich (conj rootcanon_mixed_split (conj rootcanon_edge_blank rootcanon_amp_pattern)))). Qed.
